@@ -59,7 +59,14 @@ public:
     {
         T const value = std::generate_canonical<T, std::numeric_limits<T>::digits>(generator);
 
-        auto const iterator = std::lower_bound(weight_sums.begin(), weight_sums.end(), value);
+        // channel `i` owns the half-open interval [sum_{i-1}, sum_i), so that an entry with weight
+        // zero (an empty interval) is never selected, not even for `value == 0`
+        auto iterator = std::upper_bound(weight_sums.begin(), weight_sums.end(), value);
+        if (iterator == weight_sums.end())
+        {
+            // `value` must have been one; select the last entry with non-zero weight
+            iterator = std::lower_bound(weight_sums.begin(), weight_sums.end(), weight_sums.back());
+        }
 
         I const result = std::distance(weight_sums.begin(), iterator);
 
